@@ -263,7 +263,9 @@ def inline_call(fn, n, depth=0):
         return None
     stmts = [s for s in _kids(callee.body) if s is not None]
     args = _kids(n)[1:] if n.get("member_call") else _kids(n)
-    if len(args) < len(callee.params) or not stmts:
+    if n["k"] == "CXXOperatorCallExpr" and n.get("op") == "()" and len(args) == len(callee.params) + 1:
+        args = args[1:]          # f(a, b) on a function object: the first operand is the object, not an argument
+    if len(args) != len(callee.params) or not stmts:
         return None
     mapping = {p["did"]: a for p, a in zip(callee.params, args)}
     return stmts_as_expr(stmts, mapping)
